@@ -307,6 +307,15 @@ fn irr(rng: &mut Rng, ctx: &mut Ctx) {
                 if let (Some(sg), Some(g)) = (&sg, &g) { if start_json(&sg.start) != start_json(&g.start) || end_json(&sg.end) != end_json(&g.end) || sg.metadata != g.metadata { c.fail("C10", "skip-frames start/end/metadata differ from the full parse (replay with unknown events / permuted bodies)"); } } }
             ctx.push(c);
         }
+        // the same replay with raw length 0 in the header (a recorder that never went back to fill it in): events are read up to Game End, then the
+        // metadata element — same game
+        if k % 7 == 5 && r.end.is_some() && !r.double_end && junk.is_empty() { let mut x0 = x.clone(); x0[11..15].copy_from_slice(&[0, 0, 0, 0]);
+            let (lz, gz) = read_line(&x0, false, false);
+            let mut c = Case::new(read_cmd(false, false, &x0), lz.clone()); c.tags = vec!["rawlen0".into()];
+            if lz != l { c.fail("C08", format!("replay with raw length 0 in the header reads differently: {} vs {}", &lz[..lz.len().min(120)], &l[..l.len().min(120)])); }
+            match (&gz, &g) { (Some(gz), Some(g)) => { if gz.metadata != g.metadata { c.fail("C16", "metadata of a replay with raw length 0 in the header differs (or is dropped)".to_string()); } if end_json(&gz.end) != end_json(&g.end) { c.fail("C05", "Game End of a replay with raw length 0 differs".to_string()); } }
+                (None, Some(_)) => { c.fail("C16", format!("replay with raw length 0 in the header rejected: {}", &lz[..lz.len().min(100)])); } _ => {} }
+            ctx.push(c); }
         // C17: write, declared length, re-read, fixed point
         let mut c = Case::new(format!("rt {}", hex(&x)), String::new()); c.tags = vec!["rt-irr".into()];
         match &g { None => { c.impl_out = l.clone(); c.fail("C17", "replay with tolerated irregularities rejected"); } Some(g) => match write_slp(g) {
@@ -387,6 +396,17 @@ fn maxver(rng: &mut Rng, ctx: &mut Ctx) {
                 let pw = std::panic::catch_unwind(std::panic::AssertUnwindSafe(|| { let mut buf = vec![]; peppi::io::peppi::write(&mut buf, g, None).map_err(|e| e.to_string()) }));
                 match pw { Err(_) => c.fail("C09", format!(".slpp writer panicked for version {:?}", v)), Ok(Ok(())) => if exp_refuse { c.fail("C09", format!(".slpp writer accepted version {:?} > 3.16.0", v)); }, Ok(Err(e)) => if !exp_refuse { c.fail("C09", format!(".slpp writer refused version {:?} <= 3.16.0: {}", v, e)); } } } }
         ctx.push(c);
+        // games the writers cannot serialise for other reasons (no occupied port with frames: the Arrow export panics, the recorded finding D6; a Gecko list
+        // that is not a whole number of blocks) are still *refused* when they are newer than the maximum: the version is looked at first
+        if exp_refuse && k % 2 == 0 { let r0 = simple(v, &[], 2, &[], rng); let b0 = encode(&r0);
+            let mut c = Case::new(format!("skipcase newer-degenerate {:?}", v), String::new()); c.tags = vec!["newer-degenerate".into()];
+            if let Some(g0) = read_line(&b0, false, false).1 {
+                let pw = std::panic::catch_unwind(std::panic::AssertUnwindSafe(|| { let mut buf = vec![]; peppi::io::peppi::write(&mut buf, g0, None).map_err(|e| e.to_string()) }));
+                match pw { Err(_) => { c.impl_out = "panic".into(); c.fail("C09", format!(".slpp writer panics instead of refusing a game of version {:?} (no occupied port)", v)); } Ok(Ok(())) => { c.impl_out = "ok".into(); c.fail("C09", format!(".slpp writer accepted version {:?} > 3.16.0", v)); } Ok(Err(_)) => c.impl_out = "err".into() } }
+            if let Some(mut g1) = read_line(&b, false, false).1 { g1.gecko_codes = Some(peppi::game::GeckoCodes { bytes: vec![7u8; 700], actual_size: 700 });
+                let sw = std::panic::catch_unwind(std::panic::AssertUnwindSafe(|| { let mut buf = vec![]; slippi::write(&mut buf, &g1).map_err(|e| e.to_string()) }));
+                match sw { Err(_) => c.fail("C09", format!(".slp writer panics instead of refusing a game of version {:?} (Gecko list of 700 bytes)", v)), Ok(Ok(())) => c.fail("C09", format!(".slp writer accepted version {:?} > 3.16.0", v)), Ok(Err(_)) => {} } }
+            ctx.push(c); }
     }
 }
 
@@ -550,6 +570,7 @@ fn inc(rng: &mut Rng, ctx: &mut Ctx) {
             if let Some(g) = og {
             if start_json(st.start()) != start_json(&g.start) || end_json(st.end()) != end_json(&g.end) || st.metadata() != &g.metadata || st.gecko_codes() != &g.gecko_codes { fails.push(("C12".into(), "incremental start/end/metadata/gecko differ from the one-shot game".into())); }
                 if st.frames().id.values().as_slice() != g.frames.id.values().as_slice() { fails.push(("C12".into(), "incremental frame ids differ from the one-shot game".into())); }
+                if st.len() != g.frames.id.len() { fails.push(("C12".into(), format!("the in-progress game reports {} frames (Game::len) at the end of the stream, the one-shot game has {}", st.len(), g.frames.id.len()))); }
                 let n = g.frames.id.len();
                 // all frames but a possibly still-open last one (versions < 3.0 close lazily)
                 let upto = if r.v >= (3, 0, 0) { n } else { n.saturating_sub(1) };
